@@ -641,6 +641,32 @@ func (c *Ctx) checkHashable(r *Report) {
 	objT := c.TypeNamed("object", "Object")
 	names := c.objectTypeNames()
 	tagTypes := c.concreteTypesByTag()
+	// the tag Hashable switches on is the tag of the argument itself: the cache stores the argument, not a
+	// dereferenced copy, so accepting what a reference points to would put the reference into the key
+	{
+		nT, okT := 0, true
+		eachInstr(fn, func(in ssa.Instruction) {
+			call, ok := in.(*ssa.Call)
+			if !ok || !call.Common().IsInvoke() || call.Common().Method.Name() != "Type" {
+				return
+			}
+			used := false
+			for _, ref := range *call.Referrers() {
+				if bin, ok := ref.(*ssa.BinOp); ok && bin.Op == token.EQL {
+					used = true
+				}
+			}
+			if !used {
+				return
+			}
+			nT++
+			if call.Common().Value != ssa.Value(fn.Params[0]) {
+				okT = false
+			}
+		})
+		r.Check(nT > 0 && okT, "C04.R4", fname, "the tag tested is the tag of the argument itself", c.Pos(fn.Pos()),
+			"Hashable switches on the tag of a value derived from its argument (e.g. Value(o)), so a reference to a hashable value is accepted; Cache.Get/Set store the argument itself in the key, and a key holding a reference (name + environment) stays equal while the variable changes: stale results")
+	}
 	// tags on whose equality edge the function returns the constant true directly
 	for _, b := range fn.Blocks {
 		ret, ok := b.Instrs[len(b.Instrs)-1].(*ssa.Return)
